@@ -40,7 +40,7 @@ PROPERTY_RULES: Dict[str, List[str]] = {
     "C06": ["R5", "R20/connect", "R6", "R7/site", "R7/R9", "R19", "R20/delay"],
     "C07": ["R2/INFLIGHT", "R2/sink", "R2/anc", "R2/own", "R2/until", "R2/extra", "R3/P3", "R5/store", "R5/update_min", "R19/anc-closure", "R4/notify", "R20/delay"],
     "C08": ["R6", "R20/table/input_delays", "R5/store", "R19/zero", "R19/anc-closure", "R19/closure", "R7/key", "R7/R9", "R5/update_min", "R1/O5b"],
-    "C09": ["R20/ports", "R7/R9", "R2/INFLIGHT", "R2/anc", "R4/notify", "R4/wake", "R8/lift", "R3/R12", "R4/outtime", "R19/interval", "R20/delay", "R20/table/triggers", "R1/O3", "R1/O1", "R5/store", "R14/waiter", "R14/groups"],
+    "C09": ["R20/ports", "R7/R9", "R2/INFLIGHT", "R2/anc", "R4/notify", "R4/wake", "R4/dedup", "R8/lift", "R3/R12", "R4/outtime", "R19/interval", "R20/delay", "R20/table/triggers", "R1/O3", "R1/O1", "R5/store", "R14/waiter", "R14/groups"],
     "C10": ["R1/O3", "R3/P1", "R1/O4", "R2/INFLIGHT", "R2/sink", "R2/own", "R20/table/successors", "R20/delay", "R20/async", "R20/writers", "R10/R18"],
     "C11": ["R7/R9", "R20", "R19/interval", "R19/group_path", "R19/group-scope", "R22/readers", "R22/tuple", "R22/defaults", "R22/forbidden", "R22/triple", "R22/wrap", "R22/op"],
     "C12": ["R22", "R23/feature"],
@@ -72,7 +72,7 @@ CLAIMS: Dict[str, Tuple[str, str]] = {
             "traceability of later steps over a whole run"),
     "C08": ("TieredInterval.__lt__ as the product of its scan loop with the order specification derived from the arrival-time semantics (all letter sequences, both cutoff directions, history: trichotomy and 'a smaller delay never arrives later'), TieredTime.__lt__ a tuple comparison, derived operators and a hand-written == consistent with the fields, structural clauses of the additions (dependence on the cutoff, result pre_length, smaller cutoff), no delay identified by its tiers alone; and the uses of the arithmetic that the statement names: min-combination of parallel connections in connect_one, the two closures (every path relaxed until nothing changes), the zero test on the tiers only, the wake-up test of a wait (the target is compared with progress + delay: the action of the delay on the time is applied on every path, no shortcut bypasses the addition); the generated == / hash of the two classes see every field (no field(compare=False), no eq=False)",
             "the tier arithmetic of the additions: associativity, action law, 'adding a delay never moves time backwards' (value arithmetic)"),
-    "C09": ("guard placement before the step, all sub-tiers, >= against the configured bound, SimulationError naming the simulator, sub-tier accounting of the output time, and what makes a sub-step count: every trigger entry carries its own connection's delay (a time-shifted trigger next to a weak one must leave the loop), and a simulator does not run sub-steps ahead of its consumers (the lazy wait includes the sub-tiers); the step in flight bounds the loop partners until its outputs are fetched, every triggered (simulator, delay) pair is scheduled",
+    "C09": ("guard placement before the step, all sub-tiers, >= against the configured bound, SimulationError naming the simulator, sub-tier accounting of the output time, and what makes a sub-step count: every trigger entry carries its own connection's delay (a time-shifted trigger next to a weak one must leave the loop), and a simulator does not run sub-steps ahead of its consumers (the lazy wait includes the sub-tiers); the step in flight bounds the loop partners until its outputs are fetched, every triggered (simulator, delay) pair is scheduled, and scheduled once (a sub-step that is already pending anywhere in the queue is not queued again: a duplicate makes a loop member step twice and the loop lose a round)",
             "'time then advances normally' (behaviour)"),
     "C10": ("under the flag every direct consumer contributes a has_reached(next_step + adapt) wait that is awaited before the step; the consumer's progress is a lower bound on its outstanding steps; the successors table is written by connect only (no pruning pass); the lazy wait precedes the pop of the step, unconditionally, in sim_process",
             "the run-ahead bound over executions"),
